@@ -6,7 +6,8 @@ trees (files, executable files, symlinks, nested and sibling directories); a *va
 any distinct well-formed tree reachable from BASE by <= 2 edits (quick: <= 2 on two bases,
 <= 1 on the others) from {modify, chmod, rename, move to every other directory, delete
 (recursively), file->symlink, file->directory (+child), symlink->file, symlink retarget,
-directory->file, add file in every directory, add directory with a file}.  Laws, each on
+directory->file, add file in every directory, add directory with a file, split (delete a file
+and add two files with its exact bytes and mode), copy (add an exact copy next to a file)}.  Laws, each on
 every variant V (committed as its own revision on top of BASE):
   other=base : merge(THIS=V, OTHER=BASE)      == V,  no conflicts
   this=base  : merge(THIS=BASE, OTHER=V)      == V,  no conflicts
